@@ -104,6 +104,12 @@ def _describe(rec, exp):
     return json.dumps(rec)[:300]
 
 
+def _trivial(rec):
+    """Inputs that cannot distinguish a right implementation from a wrong one."""
+    k = rec["k"]
+    return (k in ("h1", "m3", "rnd") and not rec["key"]) or (k in ("cmp", "ord") and rec["a"] == rec["b"])
+
+
 def _input_id(rec):
     return json.dumps([rec["k"]] + [rec.get(x) for x in ("p", "key", "a", "b", "vals", "idx", "via")], sort_keys=True)
 
@@ -157,6 +163,12 @@ def _validate_sharded(ctx, recs, tag, nproc):
 # ------------------------------------------------------------------ the check
 
 def run(ctx):
+    if getattr(ctx, "replay", None):
+        # a replay file names the tier and seed of the failing run; the run is deterministic in them
+        # (except the concurrent UUID run), so re-running with them re-executes the failing inputs
+        d = json.load(open(ctx.replay))
+        ctx.tier, ctx.seed = d.get("tier", ctx.tier), int(d.get("seed", ctx.seed))
+        ctx.log("replaying tier=%s seed=%d (%d recorded violation(s))" % (ctx.tier, ctx.seed, len(d.get("violations", []))))
     quick = ctx.tier == "quick"
     ctx.level = "exploration"
     nproc = _nproc(ctx)
@@ -209,7 +221,8 @@ def run(ctx):
         for r in res:
             c = cases[r["i"]]
             evaluations += 1
-            inputs.add(_input_id(r))
+            if not _trivial(r):
+                inputs.add(_input_id(r))
             if r["panic"] or r["out"] != c["h1"]:
                 judge(r, c["h1"], variant)
         ctx.log("murmur (%s): %d generated keys executed" % (variant, len(res)))
@@ -225,7 +238,8 @@ def run(ctx):
         c = cases[r["i"]]
         seen_cases.add(r["i"])
         evaluations += 1
-        inputs.add(_input_id(r))
+        if not _trivial(r):
+            inputs.add(_input_id(r))
         k = r["k"]
         if k == "m3":
             ok, exp = r["out"] == c["tok"], c["tok"]
@@ -247,9 +261,12 @@ def run(ctx):
     if len(seen_cases) != want:
         raise vf.Inconclusive("token case driver answered %d of %d cases" % (len(seen_cases), want))
     ctx.log("token cases executed: %d results" % len(res))
-    for kind in ("key", "rk", "cmp"):
+    picks = (lambda c: c["k"] == "key" and len(c["key"]) == 29 and len(set(c["key"])) > 1 and max(c["key"]) >= 128,
+             lambda c: c["k"] == "rk" and len(c["idx"]) == 2 and c["idx"][0] != 1 and len(c["out"]) < 40,
+             lambda c: c["k"] == "cmp" and c["p"] == "rnd" and c["a"] != c["b"] and len(c["a"]) > 20)
+    for pick in picks:
         for c in cases:
-            if c["k"] == kind and (kind != "key" or len(c["key"]) == 29):
+            if pick(c):
                 samples.append(dict(direction="spec->code", case=_pretty(c)))
                 break
 
@@ -274,7 +291,8 @@ def run(ctx):
         raise vf.Inconclusive("TLC judged %d of %d vectors" % (nval, len(tagged)))
     evaluations += nval
     for r, _ in tagged:
-        inputs.add(_input_id(r))
+        if not _trivial(r):
+            inputs.add(_input_id(r))
     for r, exp in bad:
         judge(r, exp, tagged[r["vfn"]][1])
     vk = {}
@@ -299,7 +317,7 @@ def run(ctx):
         evaluations=evaluations,
         distinct_nontrivial=len(inputs),
         rule="distinct (kind, input) tuples executed on the real code and compared with the value Token.tla requires; "
-             "empty partition keys are excluded at the partitioner level",
+             "empty keys and comparisons of a value with itself are not counted; empty partition keys are excluded at the partitioner level",
         generated_cases=bykind, generator_states=gen_states, recorded_vectors=vk,
         murmur_tail_block_classes_covered=len(tails), mismatching_classes=sorted(byk.keys()),
         samples=samples[:6],
